@@ -77,6 +77,11 @@ SPECS = [
     dict(name="ext4_empty", kb=8192, args="-t ext4 -b 1024 -J size=1", tree=None),
     dict(name="ext4_noextent_64", kb=8192, args="-t ext4 -b 1024 -O ^extent,^64bit -J size=1", tree="std",
          extras=["deepfile"]),
+    # > 32768 physically and logically contiguous blocks in one file (extent length limits);
+    # kept out of the corruption universes (big=True) so that their case numbering is stable
+    dict(name="ext4_bigextent", kb=65536, big=True,
+         args="-t ext4 -b 1024 -O sparse_super2,^has_journal -E num_backup_sb=0", tree="tiny",
+         extras=["bigfile"]),
     dict(name="ext4_4k_encodings", kb=16384, args="-t ext4 -b 4096 -O ^has_journal,stable_inodes", tree="std"),
 ]
 
@@ -99,6 +104,16 @@ class ZooError(Exception):
 def make_host_tree(spec, dirpath, seed=0):
     rng = random.Random("%s|%d" % (spec["name"], seed))
     trees.make_tree(dirpath, rng, profile=spec["tree"], big=spec.get("big", False))
+    if "bigfile" in spec.get("extras", []):
+        p = os.path.join(dirpath, "big_contiguous")
+        with open(p, "wb") as f:
+            chunk = trees.pattern(4242, 251 * 4096)
+            left = 40000 * 1024
+            while left > 0:
+                f.write(chunk[:min(left, len(chunk))])
+                left -= len(chunk)
+        os.utime(p, (trees.MTIME_BASE, trees.MTIME_BASE))
+        os.utime(dirpath, (trees.MTIME_BASE, trees.MTIME_BASE))
     if "deepfile" in spec.get("extras", []):
         # > 340 extents at 1k blocks: extent tree of depth 2 / double-indirect for block maps
         p = os.path.join(dirpath, "deep_sparse")
@@ -227,9 +242,9 @@ def corpus_image(name, destdir):
     return dst
 
 
-def corpus_names(tier="quick"):
+def corpus_names(tier="quick", include_big=False):
     idx = corpus_index()
-    names = [e["name"] for e in idx["images"]]
+    names = [e["name"] for e in idx["images"] if include_big or not e.get("big")]
     if tier == "quick":
         return [n for n in names if n in QUICK_NAMES]
     return names
